@@ -244,20 +244,47 @@ def effective_conservative(operator: str, opts: dict) -> bool:
     return operator != "tensor_divergence"
 
 
-def admissible_project(gspec: dict, rank: int, data: np.ndarray) -> np.ndarray:
+def admissible_project(gspec: dict, rank: int, data: np.ndarray, operator: str | None = None, opts: dict | None = None) -> np.ndarray:
     """Project padded input data onto the fields a grid's symmetry admits.
 
-    Only spherical grids restrict inputs (documented pre-conditions): vectors are radial,
-    tensors are ``T_rr e_r e_r + T_t (e_th e_th + e_ph e_ph) + T_a (e_th e_ph - e_ph e_th)``.
+    Only spherical grids restrict inputs.  Without ``operator`` the common core of all
+    pre-conditions is used: vectors are radial, tensors are
+    ``T_rr e_r e_r + T_t (e_th e_th + e_ph e_ph) + T_a (e_th e_ph - e_ph e_th)``.
+    With ``operator`` (and its options) the projection is onto exactly the pre-condition that
+    operator documents (the symmetry check each kernel performs when
+    ``operators.tensor_symmetry_check`` is on), which leaves more components free:
+
+    * divergence: v_theta = 0 (v_phi is free and must not contribute)
+    * vector_gradient / vector_laplace: v_theta = v_phi = 0
+    * tensor_divergence, conservative: T_phi_r = T_r_phi = T_r_theta = T_theta_r = 0,
+      T_theta_theta = T_phi_phi, T_phi_theta = -T_theta_phi
+    * tensor_divergence, non-conservative: T_r_theta = 0, T_theta_theta = T_phi_phi,
+      T_phi_theta = -T_theta_phi (T_theta_r, T_phi_r, T_r_phi free)
+    * tensor_double_divergence: T_r_theta = -T_theta_r, T_theta_theta = T_phi_phi (rest free)
     """
     if gspec["cls"] != "SphericalSymGrid" or rank == 0:
         return data
     data = data.copy()
     if rank == 1:
-        data[1:] = 0
+        if operator == "divergence":
+            data[1] = 0
+        else:
+            data[1:] = 0
         return data
     t = (data[1, 1] + data[2, 2]) / 2
     a = (data[1, 2] - data[2, 1]) / 2
+    if operator == "tensor_divergence" and not effective_conservative(operator, opts or {}):
+        out = data.copy()
+        out[0, 1] = 0
+        out[1, 1] = out[2, 2] = t
+        out[1, 2], out[2, 1] = a, -a
+        return out
+    if operator == "tensor_double_divergence":
+        out = data.copy()
+        b = (data[0, 1] - data[1, 0]) / 2
+        out[0, 1], out[1, 0] = b, -b
+        out[1, 1] = out[2, 2] = t
+        return out
     out = np.zeros_like(data)
     out[0, 0] = data[0, 0]
     out[1, 1] = out[2, 2] = t
